@@ -580,10 +580,7 @@ def replay(rec: dict) -> int:
     core.setup_repo_path()
     obs = run_case(rec['case'])
     exp = rec['expected']
-    if rec['case']['what'] == 'string' and isinstance(rec['observed'], dict):
-        obs_cmp = core.jsonable(obs)
-    else:
-        obs_cmp = core.jsonable(obs)
+    obs_cmp = core.jsonable(obs)     # the recorded 'observed' of string cases also carries what the wrong string selects
     print('case     :', {k: v for k, v in rec['case'].items() if k not in ('parent', 'kind')})
     print('expected :', exp)
     print('observed :', obs_cmp)
